@@ -33,8 +33,10 @@ Before(t, u) == t[1] < u[1] \/ (t[1] = u[1] /\ t[2] < u[2])
 Year(yy) == IF yy < 70 THEN 2000 + yy ELSE 1900 + yy
 
 \* ---------------------------------------------------------------- (1) decoder, line level
+\* backhdr: a valid date header named a day EARLIER than the day of the last fix (a re-emitted header after a roll-over,
+\* concatenated flights): what "time goes backwards" means there is not fixed by the format, see IGCObs.
 S0 == [foundA |-> FALSE, noise |-> FALSE, y |-> 0, m |-> 0, d |-> 0, dated |-> FALSE, last |-> <<>>, blen |-> 35,
-       lad |-> <<0, 0>>, lod |-> <<0, 0>>, tds |-> <<0, 0>>, fixes |-> <<>>, nerr |-> 0, oob |-> FALSE]
+       lad |-> <<0, 0>>, lod |-> <<0, 0>>, tds |-> <<0, 0>>, fixes |-> <<>>, nerr |-> 0, oob |-> FALSE, backhdr |-> FALSE]
 Err(s) == [s EXCEPT !.nerr = @ + 1]
 RECURSIVE IEntries(_, _, _)
 IEntries(s, ents, i) ==
@@ -53,7 +55,9 @@ Step(s, l) ==
   ELSE CASE l.k \in {"A", "X"} -> s
     [] l.k = "HDTE" ->
          IF l.short \/ l.dd < 1 \/ l.dd > 31 \/ l.mm < 1 \/ l.mm > 12 THEN Err(s)
-         ELSE [s EXCEPT !.y = Year(l.yy), !.m = l.mm, !.d = l.dd, !.dated = TRUE]
+         ELSE [s EXCEPT !.y = Year(l.yy), !.m = l.mm, !.d = l.dd, !.dated = TRUE,
+                        !.backhdr = @ \/ (s.last # <<>> /\ DaysFromCivil(Year(l.yy), l.mm, l.dd) < s.last[1])]
+    [] l.k = "H" -> s                                                \* any other H record: kept as a header (Headers below), no parser state
     [] l.k = "I" ->
          IF LineLenI(l) < 7 * l.n + 3 THEN Err(s)
          ELSE IEntries(s, SubSeq(l.ents, 1, l.n), 1)
@@ -70,6 +74,14 @@ NoIndexOutOfRange(s) == ~s.oob
 TotalErrors(s) == s.nerr + (IF ~s.foundA \/ s.noise THEN 1 ELSE 0)
 RECURSIVE Run(_, _, _)
 Run(s, ls, i) == IF i > Len(ls) THEN s ELSE Run(Step(s, ls[i]), ls, i + 1)
+\* The headers of a file: its H records in file order, each split as  H <source> <3-character key> [<key extension> ":"] <value>.
+\* A header is <<source, key, key extension, value>>.  (Meaningful for files that start with the A record.)
+D2(n) == IF n < 10 THEN "0" \o ToString(n) ELSE ToString(n)
+HeaderOf(l) == IF l.k = "HDTE" THEN <<"F", "DTE", "", D2(l.dd) \o D2(l.mm) \o (IF l.short THEN "" ELSE D2(l.yy))>>
+               ELSE <<l.src, l.key, l.extra, l.value>>
+RECURSIVE Headers(_, _)
+Headers(ls, i) == IF i > Len(ls) THEN <<>>
+                  ELSE (IF ls[i].k \in {"HDTE", "H"} THEN <<HeaderOf(ls[i])>> ELSE <<>>) \o Headers(ls, i + 1)
 
 \* ---------------------------------------------------------------- (2) encoder format and round trip
 \* a fix is [lonq, latq, alt, t]: lon/lat in units of 1/100 milli-minute (1/6000000 degree), alt an integer, t = <<day, sec>>
@@ -91,12 +103,24 @@ EncLines(track, i, prevday) ==
 Encoded(track) == <<[k |-> "A"]>> \o EncLines(track, 1, -1)
 \* what reading a written track back must give (property statement); got: sequence of [lonq, latq, alt, palt, t]
 NearQ(a, c) == Abs(a - c) <= 101                     \* within 1/60000 degree (= 100 units), plus one unit of recording slack
+\* A fix may carry altf: thousandths of a metre added to alt (generated tracks; the statement speaks of integer altitudes, so
+\* for a fractional altitude either neighbouring integer is accepted), and lone / late: millionths of a position unit added
+\* to lonq / latq (|.| <= 500000, so lonq / latq stay the nearest unit and NearQ's slack of one unit covers them).
+AltF(f) == IF "altf" \in DOMAIN f THEN f.altf ELSE 0
+AltOK(f, g) == IF AltF(f) = 0 THEN g.alt = Clamp(f.alt, 0, 10000)
+               ELSE g.alt \in {Clamp(f.alt, 0, 10000), Clamp(f.alt + 1, 0, 10000)}
 RoundTripOK(track, got) ==
   /\ Len(got) = Len(track)
   /\ \A i \in DOMAIN track :
        /\ NearQ(got[i].lonq, track[i].lonq) /\ NearQ(got[i].latq, track[i].latq)
        /\ got[i].t = track[i].t
-       /\ got[i].alt = Clamp(track[i].alt, 0, 10000)
+       /\ AltOK(track[i], got[i])
+\* consecutive repetitions removed
+RECURSIVE Dedup(_, _)
+Dedup(q, i) == IF i > Len(q) THEN <<>> ELSE (IF i > 1 /\ q[i] = q[i-1] THEN <<>> ELSE <<q[i]>>) \o Dedup(q, i + 1)
+\* the ddmmyy texts of the date headers a written track carries: one per change of UTC day
+DateText(day) == LET ymd == CivilFromDays(day) IN D2(ymd[3]) \o D2(ymd[2]) \o D2(ymd[1] % 100)
+TrackDates(track) == LET days == Dedup([i \in DOMAIN track |-> track[i].t[1]], 1) IN [i \in DOMAIN days |-> DateText(days[i])]
 InDomain(track) ==
   /\ \A i \in DOMAIN track : /\ Abs(track[i].lonq) <= 180 * 6000000 /\ Abs(track[i].latq) <= 90 * 6000000
                              /\ track[i].t[1] >= 0 /\ track[i].t[1] <= DaysFromCivil(2069, 12, 31)
